@@ -91,6 +91,7 @@ def run(tape, scenario, want_c10=False):
         # no usable sysfs (all CPUs are online, so counting those is right), and the
         # process itself is pinned to a single CPU
         env.cpulist_fault = tape.pick("fault/cpu-mask-file-how", ["unreadable", "garbage"])
+        env.affinity_cpus = 1
     violations = []
 
     def viol(rule, detail, **params):
